@@ -54,15 +54,17 @@ def intBody : Str → Nat → Nat → Bool → Option (Nat × Nat)
 /-- CPython's default `sys.get_int_max_str_digits()` -/
 def intMaxStrDigits : Nat := 4300
 
+/-- the optional sign of an `int()` literal -/
+def signSplit : Str → Bool × Str
+  | '-' :: r => (true, r)
+  | '+' :: r => (false, r)
+  | r => (false, r)
+
 /-- `int(s)` for an ASCII string: optional surrounding whitespace, optional sign, decimal
     digits with single underscores between digits, at most 4300 digits; `none` = ValueError -/
 def pyInt (s : Str) : Option Int :=
   let t := ((s.dropWhile isSpaceC).reverse.dropWhile isSpaceC).reverse
-  let (neg, body) : Bool × Str :=
-    match t with
-    | '-' :: r => (true, r)
-    | '+' :: r => (false, r)
-    | r => (false, r)
+  let (neg, body) : Bool × Str := signSplit t
   match intBody body 0 0 false with
   | none => none
   | some (v, k) => if k > intMaxStrDigits then none else some (if neg then - (v : Int) else (v : Int))
@@ -137,17 +139,19 @@ def bcurDecode (sha256 : Bytes → Bytes) (data : Str) (checksum : Option Str) :
     | none => cborDecode cbor
     | some cs => if bc32decode cs ≠ some (sha256 cbor) then none else cborDecode cbor
 
+/-- `if given and given != calculated:` of the constructors (`None` and `""` are falsy) -/
+def badArg (given : Option Str) (calcd : Str) : Bool :=
+  match given with
+  | none => false
+  | some g => g ≠ [] && g ≠ calcd
+
 /-- the constructor checks shared by BCURSingle.__init__ and BCURMulti.__init__:
     recompute (enc, enc_hash) and compare with the truthy `encoded` / `checksum` arguments -/
 def construct (sha256 : Bytes → Bytes) (data : Bytes) (encoded checksum : Option Str) : Option (Str × Str) :=
   match bcurEncode sha256 data with
   | none => none
   | some (enc, encHash) =>
-    let bad (given : Option Str) (calcd : Str) : Bool :=
-      match given with
-      | none => false
-      | some g => g ≠ [] && g ≠ calcd
-    if bad encoded enc then none else if bad checksum encHash then none else some (enc, encHash)
+    if badArg encoded enc then none else if badArg checksum encHash then none else some (enc, encHash)
 
 /-- BCURSingle(text_b64).encode(use_checksum) -/
 def singleEncode (sha256 : Bytes → Bytes) (data : Bytes) (useChecksum : Bool) : Option Str :=
